@@ -53,6 +53,22 @@ CLAIMS = {
         text='For every path through one iteration of every pass: bytes contributed by the consumed item == bytes of the appended items + label shift, appended in iteration order only; class flow shows each item kind has exactly one handler and only Blob reaches the concatenation; '
              'resolution_size normalises over p = qN + r to 0 / N - r and is emitted as that many zero bytes at the item-start offset. This decides the concatenation/align statement for all item sequences and all N at all residues.',
         note='Trusted: CPython ast, struct standard sizes (oracle), bbverif pathwalk/layout/alignform. An align expression outside the linear-modular fragment yields exit 2, not a violation.'),
+    'C04': dict(
+        category='other', design='DESIGN.md §4 "The compression relation", C04',
+        technique='compression relation lifted from the AST (predicate factories -> formula templates, construction provenance) composed with the C02 encoder closed forms and the RVC decode/expansion oracle; exhaustive walk of the lifted regions',
+        text='For each of the criteria rules and every operand tuple on which it is the first to fire, the halfword given by the derived encoder closed form is decoded and expanded by an independent RVC oracle and must have the architectural effect of the replaced instruction; '
+             'regions lie inside the encoders\' accepted sets; replacing paths shift later labels by exactly 2; every c.* encoder re-validates what it masks; auipc pairs are evaluated consistently; round order. All literal operand values and register choices are covered, not sampled.',
+        note='Not decided: a compressed form chosen on a label-dependent immediate that changes when labels move afterwards. The walk enumerates the analysis\' own lifted formulas and closed forms; no repository code is executed. Trusted: CPython ast, bbverif comprel/bitdom/pathwalk, RVC oracle.'),
+    'C12': dict(
+        category='other', design='DESIGN.md §4 C12',
+        technique='region-within-accepted-set on the lifted compression relation; str|int|Expr kind dataflow of constructor arguments; totality of predicates on item classes',
+        text='Decides the operand-independent ways -c can turn success into failure: a rule that manufactures an instruction its encoder refuses, a register-kinded field re-interpreted as an expression (wrong representation or environment), a predicate or construction reading a field its item class lacks, a criteria key without construction arm.',
+        note='Not decided (and dominant in the property\'s quantifier): failures caused by label motion after a compression decision. Trusted: CPython ast, bbverif comprel/bitdom.'),
+    'C20': dict(
+        category='other', design='DESIGN.md §4 C20',
+        technique='completeness of the lifted compression relation against the RVC oracle (exhaustive over legal operand tuples); per-path monotone-size rule; pipeline order',
+        text='Every 32-bit instruction equal to the expansion of a legal non-hint RV32C instruction (all register choices x all legal immediates, both spellings of lui) satisfies some criteria rule; on every path of every pass emitted bytes <= consumed bytes and label shifts >= 0; a compression round follows pseudo expansion.',
+        note='Not decided: "never longer" for whole programs with align needs monotonicity of rounding up (outside the code). Trusted: CPython ast, bbverif comprel/pathwalk, RVC oracle.'),
 }
 
 NOT_YET = 'check not built yet (framework under construction)'
